@@ -620,3 +620,85 @@ Definition check_mech_diverges (p : prog) : bool :=
   match mrender_prog 200 p with MFuel => true | _ => false end.
 Definition mech_unsup_reason (c : core_case) : N :=
   match mrender_prog 200 (fst c) with MUnsup w => w | _ => 0%N end.
+
+(* ---------- the fragment for which M = S is proved (Core/MechProofs.v) ---------- *)
+(* names a template may bind or read: not an internal key (leading underscore), not a name the machinery or Django's
+   builtins layer binds *)
+Definition uname (x : str) : bool :=
+  negb (starts_underscore x) &&
+  negb (existsb (str_eqb x) [CVARS; FORLOOP; s2n "True"; s2n "False"; s2n "None"]).
+Definition binder_ok (x : str) : bool := is_ident x && uname x.
+
+Fixpoint smemb (x : str) (l : list str) : bool :=
+  match l with [] => false | y :: r => str_eqb x y || smemb x r end.
+
+(* inbody: inside the body of a component tag (fill content / implicit default content) *)
+Definition expr_ok (inbody : bool) (e : expr) : bool :=
+  match e with
+  | EStr _ => true
+  | EVar x => uname x
+  | EDot x _ => uname x
+  | EFilled _ => negb inbody
+  | ECounter => false
+  end.
+Definition val_expr_ok (e : expr) : bool :=
+  match e with EFilled _ => false | _ => expr_ok true e end.
+Definition kw_ok (inbody : bool) (kw : list (str * expr)) : bool := forallb (fun ke => expr_ok inbody (snd ke)) kw.
+
+Fixpoint wf_t (inbody : bool) (G : list str) (t : tpl) {struct t} : bool :=
+  let wl := fix wl (inbody : bool) (G : list str) (ts : list tpl) {struct ts} : bool :=
+    match ts with [] => true | t :: r => wf_t inbody G t && wl inbody G r end in
+  match t with
+  | TText _ => true
+  | TOut e => expr_ok inbody e
+  | TIf c a b => expr_ok inbody c && wl inbody G a && wl inbody G b
+  | TFor _ _ _ => false
+  | TWith x e body => val_expr_ok e && binder_ok x && negb (smemb x G) && wl inbody (x :: G) body
+  | TSlot _ _ _ data body => negb inbody && kw_ok false data && wl false G body
+  | TFill name dv defv body =>
+      expr_ok true name && match defv with None => true | Some _ => false end &&
+      match dv with
+      | Some x => binder_ok x && negb (smemb x G) && wl true (x :: G) body
+      | None => wl true G body
+      end
+  | TComp _ kw _ body => kw_ok inbody kw && wl true G body
+  | TProvide _ _ _ => false
+  end.
+Fixpoint wf_l (inbody : bool) (G : list str) (ts : list tpl) : bool :=
+  match ts with [] => true | t :: r => wf_t inbody G t && wf_l inbody G r end.
+
+(* names of the slot tags flagged `default` that belong to a template (slot defaults included) *)
+Fixpoint slot_defaults_t (t : tpl) : list str :=
+  let sl := fix sl (ts : list tpl) : list str :=
+    match ts with [] => [] | t :: r => slot_defaults_t t ++ sl r end in
+  match t with
+  | TIf _ a b => sl a ++ sl b
+  | TFor _ _ body => sl body
+  | TWith _ _ body => sl body
+  | TSlot name isd _ _ body => (if isd then [name] else []) ++ sl body
+  | TProvide _ _ body => sl body
+  | _ => []
+  end.
+Fixpoint slot_defaults (ts : list tpl) : list str :=
+  match ts with [] => [] | t :: r => slot_defaults_t t ++ slot_defaults r end.
+Definition all_same (l : list str) : bool :=
+  match l with [] => true | n :: r => forallb (str_eqb n) r end.
+
+Definition dexpr_ok (d : dexpr) : bool := match d with DInject _ _ _ => false | _ => true end.
+
+Definition wf_cdef (cd : cdef) : bool :=
+  forallb (fun xd => binder_ok (fst xd) && dexpr_ok (snd xd)) (c_data cd) &&
+  wf_l false (map fst (c_data cd)) (c_tpl cd) &&
+  all_same (slot_defaults (c_tpl cd)).
+
+(* isolated mode; no for loops, no provide/inject, no `default=` alias on fills; no slot tag and no
+   component_vars.is_filled test inside the body of a component tag; no binder shadows a visible name;
+   one name for the slots flagged `default` per template *)
+Definition wf_prog (p : prog) : bool :=
+  match p_mode p with Isolated => true | Django => false end &&
+  forallb (fun nc => wf_cdef (snd nc)) (p_lib p) &&
+  forallb (fun kv => binder_ok (fst kv)) (p_ctx p) &&
+  wf_l false (map fst (p_ctx p)) (p_page p).
+
+(* test of the theorem's statement before/independently of its proof: wf_prog p -> M p = S p *)
+Definition check_wf_ms (p : prog) : bool := negb (wf_prog p) || check_ms p.
